@@ -35,15 +35,17 @@ static PDestroyFunc DF[] = { NULL, d1, d2, d3 };
 static ppointer t_malloc (psize n) { return malloc (n); }
 static ppointer t_realloc (ppointer p, psize n) { return realloc (p, n); }
 static int quarantine;      /* keep released handle blocks allocated so that a premature release is judged from the trace, not by a crash */
+static void *qaddr[MAXH];      /* quarantined (released but kept) handle blocks: a second release of one of them is an event too */
 static void t_free (ppointer p) {
 	int h;
 	if (p) for (h = 1; h < MAXH; h++) if (haddr[h] == p) {
 		haddr[h] = NULL; ensure_fp ();
 		VTM ("\"e\":\"hfree\",\"h\":%d", h);
 		p_atomic_int_inc (&nfreed);
-		if (quarantine) return;
+		if (quarantine) { qaddr[h] = p; return; }
 		break;
 	}
+	if (p && quarantine) for (h = 1; h < MAXH; h++) if (qaddr[h] == p) { ensure_fp (); VTM ("\"e\":\"hfree\",\"h\":%d,\"again\":1", h); return; }
 	free (p);
 }
 static double now (void) { struct timespec ts; clock_gettime (CLOCK_MONOTONIC, &ts); return ts.tv_sec + ts.tv_nsec * 1e-9; }
@@ -78,6 +80,19 @@ static void tls_op (int t, const char *op, int k, int v, long myval[]) {
 		VTM ("\"e\":\"trepl_e\",\"k\":%d,\"t\":%d,\"old\":%ld", k, t, myval[k]); myval[k] = v;
 	}
 	else if (!strcmp (op, "tget")) { long g = (long) p_uthread_get_local (keys[k]); VTM ("\"e\":\"tget\",\"k\":%d,\"t\":%d,\"v\":%ld", k, t, g); }
+}
+/* several threads drop a reference of the same handle at the same moment */
+static volatile int ur_go, ur_ready; static int ur_h;
+static void *ur_fn (void *arg) {
+	int id = (int) (long) arg; double t0 = now ();
+	my_h = 20 + id; ensure_fp ();
+	VTM ("\"e\":\"unref\",\"h\":%d", ur_h);
+	fflush (vtm_fp);
+	__atomic_add_fetch (&ur_ready, 1, __ATOMIC_SEQ_CST);
+	while (!__atomic_load_n (&ur_go, __ATOMIC_SEQ_CST) && now () - t0 < 10.0) ;
+	p_uthread_unref (hd[ur_h]);
+	vtm_close ();
+	return NULL;
 }
 static void *thread_fn (void *arg) {
 	int h = (int) (long) arg, i, k; long myval[MAXK] = { 0 };
@@ -131,6 +146,14 @@ int main (int argc, char **argv) {
 		else if (!strcmp (op, "waitst")) { if (!wait_until (&state[a], b)) { fprintf (stderr, "waitst timeout\n"); } }
 		else if (!strcmp (op, "ref")) { p_uthread_ref (hd[a]); VTM ("\"e\":\"ref\",\"h\":%d", a); }
 		else if (!strcmp (op, "unref")) { VTM ("\"e\":\"unref\",\"h\":%d", a); p_uthread_unref (hd[a]); }
+		else if (!strcmp (op, "unrefrace")) {       /* unrefrace H K: K raw threads each drop one reference of H, released together */
+			pthread_t ut[8]; int k, n = b > 8 ? 8 : b; double t0 = now ();
+			ur_h = a; ur_go = 0; ur_ready = 0;
+			for (k = 0; k < n; k++) pthread_create (&ut[k], NULL, ur_fn, (void *) (long) k);
+			while (__atomic_load_n (&ur_ready, __ATOMIC_SEQ_CST) < n && now () - t0 < 10.0) sched_yield ();
+			__atomic_store_n (&ur_go, 1, __ATOMIC_SEQ_CST);
+			for (k = 0; k < n; k++) pthread_join (ut[k], NULL);
+		}
 		else if (!strcmp (op, "join")) { pint c; long seen; VTM ("\"e\":\"joincall\",\"h\":%d", a); c = p_uthread_join (hd[a]); seen = cellv[a]; VTM ("\"e\":\"joinret\",\"h\":%d,\"code\":%d,\"seen\":%ld", a, (int) c, seen); }
 		else if (!strcmp (op, "tset") || !strcmp (op, "trepl") || !strcmp (op, "tget")) tls_op (0, op, a, b, mainval);
 		else if (!strcmp (op, "epoch")) {
@@ -141,7 +164,7 @@ int main (int argc, char **argv) {
 			for (k = 1; k < MAXK; k++) if (keys[k]) { if (mainval[k]) { p_uthread_set_local (keys[k], NULL); mainval[k] = 0; } p_uthread_local_free (keys[k]); keys[k] = NULL; }
 			__atomic_store_n (&kc_expect, 0, __ATOMIC_SEQ_CST);
 			VTM ("\"e\":\"Epoch\"");
-			for (h = 1; h < MAXH; h++) { ntops[h] = 0; hd[h] = NULL; cellv[h] = 0; }
+			for (h = 1; h < MAXH; h++) { ntops[h] = 0; hd[h] = NULL; cellv[h] = 0; if (qaddr[h]) { free (qaddr[h]); qaddr[h] = NULL; } }
 		}
 	}
 	fflush (NULL);
